@@ -720,6 +720,11 @@ def enc_op(op):
         return [0, 1 if op["check"] else 0] + enc_list(op["lits"])
     if op["op"] == "update":
         return [1, op["n"]]
+    if op["op"] == "use":
+        out = [3, 1 if op["check"] else 0, len(op["picks"])]
+        for gi, pos, sign in op["picks"]:
+            out += [gi, pos, sign]
+        return out
     return [2] + enc_spec(op["spec"])
 
 
@@ -735,8 +740,34 @@ def max_mentioned(F):
     return m
 
 
-def apply_op(F, op):
-    """returns the outcome string"""
+def handed_out(created, picks):
+    """the literals of a `use` operation: sign * (the identifier that the gi-th group created so far gives to its pos-th
+    legal index), looked up the way a formula author does it: `g(*index)` for an index enumerated by `g.indices()`.
+    Returns [(group, index, identifier or None if the lookup failed)]"""
+    out = []
+    for gi, pos, sign in picks:
+        if not created:
+            continue
+        g = created[gi % len(created)]
+        try:
+            idxs = [tuple(t) for t in g.indices()]
+        except Exception:
+            continue
+        if not idxs:
+            continue
+        t = idxs[pos % len(idxs)]
+        try:
+            v = g(*t)
+            if not is_scalar(v):
+                v = list(v)[0]        # word group with k = 0: g() is the whole (one element) sequence
+            out.append((g, t, sign * v))
+        except Exception:
+            out.append((g, t, None))
+    return out
+
+
+def apply_op(F, op, created=None):
+    """returns the outcome string; `created` collects the groups returned by the successful new_* calls"""
     try:
         if op["op"] == "clause":
             F.add_clause(list(op["lits"]), check=op["check"])
@@ -744,7 +775,13 @@ def apply_op(F, op):
         if op["op"] == "update":
             F.update_variable_number(op["n"])
             return "-"
+        if op["op"] == "use":
+            lits = [l for _, _, l in handed_out(created or [], op["picks"]) if l is not None]
+            F.add_clause(lits, check=op["check"])
+            return "-"
         g = create(F, op["spec"])
+        if created is not None:
+            created.append(g)
         return fmt_outcome(g)
     except Exception as e:
         return exc(e)
@@ -798,6 +835,7 @@ def build_hist(info, prop="C11"):
         unnamed = False
         zero_kept = False
         unchecked_beyond = False
+        created = []
         for op in ops:
             if op["op"] == "group" and op["spec"]["kind"] == "variable":
                 if uncovered(F):
@@ -809,7 +847,7 @@ def build_hist(info, prop="C11"):
                     zero_kept = True
                 if not op["check"] and any(abs(l) > F.number_of_variables() for l in op["lits"]):
                     unchecked_beyond = True
-            out = apply_op(F, op)
+            out = apply_op(F, op, created)
             parts.append("{}:{}:{}".format(F.number_of_variables(), max_mentioned(F), out))
         state.update(gap_single=gap_single, unnamed=unnamed, zero_kept=zero_kept, unchecked_beyond=unchecked_beyond)
         if prop == "C11":
@@ -826,8 +864,24 @@ def build_hist(info, prop="C11"):
 
     def oracle_c11():
         F = initial_formula(init)
+        created = []
         for op in ops:
-            apply_op(F, op)
+            if op["op"] == "use":
+                # index -> identifier -> index on the groups as they are in the MIDDLE of a history
+                for g, t, lit in handed_out(created, op["picks"]):
+                    if lit is None:
+                        return {"group": type(g).__name__, "legal_index_rejected": list(t)}
+                    pos = [tuple(x) for x in g.indices()].index(t)
+                    if abs(lit) != g.ids.start + pos:
+                        return {"group": type(g).__name__, "ids": [g.ids.start, g.ids.stop - 1], "index": list(t),
+                                "position_in_indices": pos, "identifier": abs(lit)}
+                    try:
+                        back = tuple(g.to_index(lit))
+                    except Exception as e:
+                        return {"group": type(g).__name__, "index": list(t), "identifier": lit, "to_index_raised": type(e).__name__}
+                    if back != t:
+                        return {"group": type(g).__name__, "index": list(t), "identifier": lit, "to_index": list(back)}
+            apply_op(F, op, created)
         try:
             names = list(F.all_variable_labels(dfmt))
         except Exception as e:
@@ -900,9 +954,25 @@ def build_hist(info, prop="C11"):
 
         F.add_clause = add_clause
         F._add_variable_group = add_group
+        created = []
+        at_creation = {}
         for op in ops:
             before = F.number_of_variables()
-            apply_op(F, op)
+            if op["op"] == "use":
+                # the identifiers a group HANDS OUT are the ones it allocated: inside its own range, hence fresh
+                for g, t, lit in handed_out(created, op["picks"]):
+                    if lit is None:
+                        continue
+                    # (after an unchecked clause beyond the count the caller, not the group, is responsible for a clash)
+                    old = at_creation.get(id(g), frozenset()) if not precondition_broken else frozenset()
+                    if abs(lit) not in g.ids or abs(lit) in old or abs(lit) > F.number_of_variables():
+                        return {"group": type(g).__name__, "allocated": [g.ids.start, g.ids.stop - 1], "index": list(t),
+                                "hands_out_identifier": abs(lit), "mentioned_before_the_group_was_created": abs(lit) in old,
+                                "declared_variables": F.number_of_variables()}
+            ncreated = len(created)
+            apply_op(F, op, created)
+            if len(created) > ncreated:
+                at_creation[id(created[-1])] = frozenset(mentioned)
             if F.number_of_variables() < before:
                 return {"number_of_variables_decreased": [before, F.number_of_variables()]}
         if precondition_broken:
@@ -1080,6 +1150,7 @@ def gen_hist(rng, clean):
     nops = rng.randint(1, 14)
     ops = []
     dirty = False
+    ngroups = 0
     for _ in range(nops):
         c = rng.random()
         if c < .5:
@@ -1087,11 +1158,22 @@ def gen_hist(rng, clean):
             if clean and kind == "variable" and dirty:
                 kind = "block"
             spec = gen_spec(rng, kind, small=True)
+            earlier = [o["spec"] for o in ops if o["op"] == "group" and o["spec"]["kind"] != "variable"]
+            if earlier and rng.random() < .35:
+                # the same kind of group with the same shape once more, further up in the same formula
+                spec = dict(rng.choice(earlier))
+                kind = spec["kind"]
             if clean and kind == "variable":
                 spec["label"] = rng.choice(["X", "y_{1}", "z"])
             ops.append({"op": "group", "spec": spec})
+            ngroups += 1
             if known_nonempty(spec):
                 dirty = False
+        elif c < .68 and ngroups:
+            # a clause written with the variables of the groups made so far (looked up through the groups)
+            ops.append({"op": "use", "check": rng.random() < .5,
+                        "picks": [[rng.randrange(ngroups) if rng.random() < .5 else ngroups - 1, rng.randrange(40),
+                                   rng.choice([1, -1])] for _ in range(rng.randint(1, 4))]})
         elif c < .8:
             n = rng.choice([0, 1, 1, 2, 3, 4])
             lits = [rng.choice([1, -1]) * rng.choice([1, 2, 3, 5, 8, 13, 30]) for _ in range(n)]
@@ -1177,9 +1259,11 @@ def group_infos(ctx):
     rng = common.sub_rng(seed, "C11", "group")
     infos = [dict(c, qseed=0) for c in CORPUS_GROUPS]
     reps = 22 if tier == "quick" else 260
+    # offsets: the fixed list plus the neighbourhood of the integer constants of the current source (thresholds, cache sizes)
+    offsets = OFFSETS + common.probe_sizes(["formula/variables.py", "formula/basecnf.py"], 2, 10 ** 6)[:12]
     for kind in KINDS:
         for i in range(reps):
-            infos.append({"spec": gen_spec(rng, kind), "off": rng.choice(OFFSETS), "qseed": rng.randrange(10 ** 6)})
+            infos.append({"spec": gen_spec(rng, kind), "off": rng.choice(offsets), "qseed": rng.randrange(10 ** 6)})
     return infos
 
 
